@@ -339,6 +339,14 @@ package proxy
 //@   ensures [C12] key_id_is_the_digest_of_the_published_key: result.1 == nil ==> called(@EncodeToString#1) && result.0.publicKeyID == @EncodeToString#1 && arg(@EncodeToString#1, 0) == hmacOf(H.$hkey, result.0.publicKeyStr)
 //@   ensures [C12] signing_key_is_the_parsed_key: result.1 == nil ==> called(@ParsePKCS8PrivateKey#1) && @ParsePKCS8PrivateKey#1.1 == nil && K == @ParsePKCS8PrivateKey#1.0
 
+// What Sign assumes of signer.newHasher (`dyn newHasher new`) is proved of the closure the constructor installs (its
+// only function literal; the field is written nowhere else — fieldwrites obligation): every signature gets a hasher
+// of its own, empty, that no other request in flight can be writing to.
+//@ func NewRequestSigner$1() hash.Hash
+//@   modifies nothing
+//@   fresh result
+//@   ensures [C12] a_hasher_of_its_own_per_signature: result != nil && result.$written == ""
+
 //@ func (signer RequestSigner) PublicKey() (string, string)
 //@   modifies nothing
 //@   ensures [C12] id_and_key: result.0 == signer.publicKeyID && result.1 == signer.publicKeyStr
